@@ -71,6 +71,13 @@ impl SwiftField for Field62F {
     where
         Self: Sized,
     {
+        // The parser works with byte offsets: refuse multi-byte characters up front
+        if !input.is_ascii() {
+            return Err(ParseError::InvalidFormat {
+                message: "Field 62F must contain only ASCII characters".to_string(),
+            });
+        }
+
         // Format: 1!a6!n3!a15d - DebitCredit + Date + Currency + Amount
         if input.len() < 10 {
             return Err(ParseError::InvalidFormat {
@@ -122,6 +129,13 @@ impl SwiftField for Field62M {
     where
         Self: Sized,
     {
+        // The parser works with byte offsets: refuse multi-byte characters up front
+        if !input.is_ascii() {
+            return Err(ParseError::InvalidFormat {
+                message: "Field 62M must contain only ASCII characters".to_string(),
+            });
+        }
+
         // Format: 1!a6!n3!a15d - DebitCredit + Date + Currency + Amount
         if input.len() < 10 {
             return Err(ParseError::InvalidFormat {
